@@ -6,7 +6,7 @@ import os, subprocess, json
 from lib import vf
 
 MANIFEST = {
- 'text': "Coq theorems: the final sort.Stable by position is a function of the per-position sub-sequences only (uniqueness of stable sorting), hence erases every reordering caused by map iteration unless two diagnostics share a position; a site that ranges over a map with pairwise different positions is deterministic after the sort; a site that visits sorted keys is deterministic even at one shared position (the places of the source that read the clock, the environment, the process, the machine or a random source are re-listed from the .go files on every run and each is a known one (elapsed-time log, default working directory, pool size); instances: format() placeholders, missing required inputs of actions and reusable workflows, visiting jobs / needs roots / registered runner labels in source order — the code after six fix: commits), while the unsorted same-position shape is refuted by a witness; LintFiles assembles per-file results by slot, independent of goroutine completion order. All for every map iteration order (Permutation) and every completion order. Tie: the model predicts the order of same-position diagnostics for generated cases at the modelled sites (vm_compute vs the implementation). Partial: rules/sites not modelled and real goroutine scheduling are covered by the repetition oracle only (every corpus file, project and generated site workflow linted R times on fresh Linters under GOMAXPROCS 1/2/4/16, results byte-compared).",
+ 'text': "Coq theorems: the final sort.Stable by position is a function of the per-position sub-sequences only (uniqueness of stable sorting), hence erases every reordering caused by map iteration unless two diagnostics share a position; a site that ranges over a map with pairwise different positions is deterministic after the sort; a site that visits sorted keys is deterministic even at one shared position (every `for ... range <map>` loop of the source is re-listed with go/types on every run and is one of 70 loops classified by hand (keys sorted first / order-independent computation / one report per entry at its own positions / element type of a merged object); the places of the source that read the clock, the environment, the process, the machine or a random source are re-listed from the .go files on every run and each is a known one (elapsed-time log, default working directory, pool size); instances: format() placeholders, missing required inputs of actions and reusable workflows, visiting jobs / needs roots / registered runner labels in source order — the code after six fix: commits), while the unsorted same-position shape is refuted by a witness; LintFiles assembles per-file results by slot, independent of goroutine completion order. All for every map iteration order (Permutation) and every completion order. Tie: the model predicts the order of same-position diagnostics for generated cases at the modelled sites (vm_compute vs the implementation). Partial: rules/sites not modelled and real goroutine scheduling are covered by the repetition oracle only (every corpus file, project and generated site workflow linted R times on fresh Linters under GOMAXPROCS 1/2/4/16, results byte-compared).",
  'note': "Trusted: Coq kernel; Go's sort.Stable is a stable sort (then it computes ssort by ssort_unique); models of the emission sites are hand-written and correspondence-checked on generated cases; Go's map iteration is modelled as an arbitrary permutation. Not proved: determinism of unmodelled rules (repetition sampling only), Go scheduler behaviour.",
  'technique': "machine-checked proof in Coq (uniqueness of stable sorting, permutation invariance of map-iteration sites) + vm_compute correspondence + repetition oracle",
 }
@@ -29,13 +29,37 @@ def regen(ctx):
         ctx.notes.append('coq/Gen/GenAmbient.v regenerated (content changed)')
 
 
+GENR = os.path.join(vf.COQ, 'Gen', 'GenMapRange.v')
+
+
+def regen_ranges(ctx):
+    """re-list the range-over-map loops of the package (go/types); write Gen only when changed"""
+    tmp = os.path.join(ctx.out, 'GenMapRange.v')
+    rc, out = vf.sh([os.path.join(vf.BIN, 'c02'), '-extract-mapranges', vf.REPO, '-gen', tmp], timeout=120)
+    if rc != 0:
+        ctx.broken.append('listing the range-over-map loops of the package failed: ' + out[-400:])
+        return
+    new = open(tmp).read()
+    old = open(GENR).read() if os.path.exists(GENR) else None
+    if new != old:
+        open(GENR, 'w').write(new)
+        ctx.notes.append('coq/Gen/GenMapRange.v regenerated (content changed)')
+
+
 def run(ctx):
     ok, log = vf.build_harness(ctx, ['c02'])
     if not ok:
         ctx.broken.append('harness does not build against /repo: ' + log[-400:])
         vf.finish(ctx, 'proof', [])
     regen(ctx)
+    regen_ranges(ctx)
     nthm, ndis, _ = vf.check_props(ctx)
+    if 'MapRange' in (getattr(ctx, 'coq_log', '') or ''):
+        import re as _re
+        allowed = set(_re.findall(r'\("([^"]+)", "([^"]+)", "((?:[^"]|"")*)", (\d+)%N', open(os.path.join(vf.COQ, 'Out', 'MapRange.v')).read()))
+        now = _re.findall(r'\("([^"]+)", "([^"]+)", "((?:[^"]|"")*)", (\d+)%N', open(GENR).read())
+        new = [' '.join(x) for x in now if x not in allowed]
+        ctx.broken.append('coq/Out/MapRange.v (map_range_sites_known_b): the package ranges over a map in a loop that is not one of the classified ones (the visiting order of a Go map changes from run to run): ' + '; '.join(new[:6]))
     ambient_broken = 'Ambient' in (getattr(ctx, 'coq_log', '') or '')
     if ambient_broken:
         okg, logg = vf.coq_make(['Gen/GenAmbient.vo'])
